@@ -56,4 +56,86 @@ def agrees (d : Dictionary) (o : Options) (imports decls : List Bytes) : Bool :=
     out.decls.map renderDecl == decls
   | .error _ => false
 
+/-! ## The packages and their files (pinned; second audit, finding 9)
+
+`packages_present` only counted, and the per-package ties range over whatever list `vh probe` regenerates: a package
+replaced by another, or a hand-written file next to a generated one ("no hand edits" is a statement about the
+PACKAGE), would not have been seen.  These two lists are the inventory of the pinned commit; the regenerated facts
+`RV.Facts.C18.packageFiles` / `all.map (·.1)` must equal them (`tie_packageFiles`, `tie_packageNames`). -/
+
+/-- every directory with a go:generate artefact and its non-test Go files -/
+def packageFiles : List (Bytes × List Bytes) := [
+  ((B 0x6465627567 5), [(B 0x64656275672e676f 8), (B 0x646f632e676f 6), (B 0x67656e65726174652e676f 11), (B 0x67656e65726174655f6d61696e2e676f 16), (B 0x67656e6572617465642e676f 12)]),  -- debug: debug.go doc.go generate.go generate_main.go generated.go
+  ((B 0x696e7465726e616c2f73616c74656e637279707474657374 24), [(B 0x67656e65726174652e676f 11), (B 0x67656e6572617465642e676f 12)]),  -- internal/saltencrypttest: generate.go generated.go
+  ((B 0x72666332383635 7), [(B 0x67656e65726174652e676f 11), (B 0x67656e6572617465642e676f 12)]),  -- rfc2865: generate.go generated.go
+  ((B 0x72666332383636 7), [(B 0x67656e65726174652e676f 11), (B 0x67656e6572617465642e676f 12)]),  -- rfc2866: generate.go generated.go
+  ((B 0x72666332383637 7), [(B 0x67656e65726174652e676f 11), (B 0x67656e6572617465642e676f 12)]),  -- rfc2867: generate.go generated.go
+  ((B 0x72666332383638 7), [(B 0x67656e65726174652e676f 11), (B 0x67656e6572617465642e676f 12)]),  -- rfc2868: generate.go generated.go
+  ((B 0x72666332383639 7), [(B 0x67656e65726174652e676f 11), (B 0x67656e6572617465642e676f 12)]),  -- rfc2869: generate.go generated.go
+  ((B 0x72666333313632 7), [(B 0x67656e65726174652e676f 11), (B 0x67656e6572617465642e676f 12)]),  -- rfc3162: generate.go generated.go
+  ((B 0x72666333353736 7), [(B 0x67656e65726174652e676f 11), (B 0x67656e6572617465642e676f 12)]),  -- rfc3576: generate.go generated.go
+  ((B 0x72666333353830 7), [(B 0x67656e65726174652e676f 11), (B 0x67656e6572617465642e676f 12)]),  -- rfc3580: generate.go generated.go
+  ((B 0x72666334303732 7), [(B 0x67656e65726174652e676f 11), (B 0x67656e6572617465642e676f 12)]),  -- rfc4072: generate.go generated.go
+  ((B 0x72666334333732 7), [(B 0x67656e65726174652e676f 11), (B 0x67656e6572617465642e676f 12)]),  -- rfc4372: generate.go generated.go
+  ((B 0x72666334363033 7), [(B 0x67656e65726174652e676f 11), (B 0x67656e6572617465642e676f 12)]),  -- rfc4603: generate.go generated.go
+  ((B 0x72666334363735 7), [(B 0x67656e65726174652e676f 11), (B 0x67656e6572617465642e676f 12)]),  -- rfc4675: generate.go generated.go
+  ((B 0x72666334363739 7), [(B 0x67656e65726174652e676f 11), (B 0x67656e6572617465642e676f 12)]),  -- rfc4679: generate.go generated.go
+  ((B 0x72666334383138 7), [(B 0x67656e65726174652e676f 11), (B 0x67656e6572617465642e676f 12)]),  -- rfc4818: generate.go generated.go
+  ((B 0x72666334383439 7), [(B 0x67656e65726174652e676f 11), (B 0x67656e6572617465642e676f 12)]),  -- rfc4849: generate.go generated.go
+  ((B 0x72666335303930 7), [(B 0x67656e65726174652e676f 11), (B 0x67656e6572617465642e676f 12)]),  -- rfc5090: generate.go generated.go
+  ((B 0x72666335313736 7), [(B 0x67656e65726174652e676f 11), (B 0x67656e6572617465642e676f 12)]),  -- rfc5176: generate.go generated.go
+  ((B 0x72666335343437 7), [(B 0x67656e65726174652e676f 11), (B 0x67656e6572617465642e676f 12)]),  -- rfc5447: generate.go generated.go
+  ((B 0x72666335353830 7), [(B 0x67656e65726174652e676f 11), (B 0x67656e6572617465642e676f 12)]),  -- rfc5580: generate.go generated.go
+  ((B 0x72666335363037 7), [(B 0x67656e65726174652e676f 11), (B 0x67656e6572617465642e676f 12)]),  -- rfc5607: generate.go generated.go
+  ((B 0x72666335393034 7), [(B 0x67656e65726174652e676f 11), (B 0x67656e6572617465642e676f 12)]),  -- rfc5904: generate.go generated.go
+  ((B 0x72666336353139 7), [(B 0x67656e65726174652e676f 11), (B 0x67656e6572617465642e676f 12)]),  -- rfc6519: generate.go generated.go
+  ((B 0x72666336353732 7), [(B 0x67656e65726174652e676f 11), (B 0x67656e6572617465642e676f 12)]),  -- rfc6572: generate.go generated.go
+  ((B 0x72666336363737 7), [(B 0x67656e65726174652e676f 11), (B 0x67656e6572617465642e676f 12)]),  -- rfc6677: generate.go generated.go
+  ((B 0x72666336393131 7), [(B 0x67656e65726174652e676f 11), (B 0x67656e6572617465642e676f 12)]),  -- rfc6911: generate.go generated.go
+  ((B 0x72666337303535 7), [(B 0x67656e65726174652e676f 11), (B 0x67656e6572617465642e676f 12)]),  -- rfc7055: generate.go generated.go
+  ((B 0x72666337323638 7), [(B 0x67656e65726174652e676f 11), (B 0x67656e6572617465642e676f 12)]),  -- rfc7268: generate.go generated.go
+  ((B 0x76656e646f72732f6172756261 13), [(B 0x67656e65726174652e676f 11), (B 0x67656e6572617465642e676f 12)]),  -- vendors/aruba: generate.go generated.go
+  ((B 0x76656e646f72732f6d6963726f736f6674 17), [(B 0x67656e65726174652e676f 11), (B 0x67656e6572617465642e676f 12), (B 0x6d736368617076322d7365727665722d6578616d706c652e676f 26)]),  -- vendors/microsoft: generate.go generated.go mschapv2-server-example.go
+  ((B 0x76656e646f72732f6d696b726f74696b 16), [(B 0x67656e65726174652e676f 11), (B 0x67656e6572617465642e676f 12)]),  -- vendors/mikrotik: generate.go generated.go
+  ((B 0x76656e646f72732f7769737072 13), [(B 0x67656e65726174652e676f 11), (B 0x67656e6572617465642e676f 12)])  -- vendors/wispr: generate.go generated.go
+]
+
+/-- the helper packages (every artefact but the debug package's built-in dictionary), in order -/
+def helperPackages : List Bytes := [
+  (B 0x696e7465726e616c2f73616c74656e637279707474657374 24),  -- internal/saltencrypttest
+  (B 0x72666332383635 7),  -- rfc2865
+  (B 0x72666332383636 7),  -- rfc2866
+  (B 0x72666332383637 7),  -- rfc2867
+  (B 0x72666332383638 7),  -- rfc2868
+  (B 0x72666332383639 7),  -- rfc2869
+  (B 0x72666333313632 7),  -- rfc3162
+  (B 0x72666333353736 7),  -- rfc3576
+  (B 0x72666333353830 7),  -- rfc3580
+  (B 0x72666334303732 7),  -- rfc4072
+  (B 0x72666334333732 7),  -- rfc4372
+  (B 0x72666334363033 7),  -- rfc4603
+  (B 0x72666334363735 7),  -- rfc4675
+  (B 0x72666334363739 7),  -- rfc4679
+  (B 0x72666334383138 7),  -- rfc4818
+  (B 0x72666334383439 7),  -- rfc4849
+  (B 0x72666335303930 7),  -- rfc5090
+  (B 0x72666335313736 7),  -- rfc5176
+  (B 0x72666335343437 7),  -- rfc5447
+  (B 0x72666335353830 7),  -- rfc5580
+  (B 0x72666335363037 7),  -- rfc5607
+  (B 0x72666335393034 7),  -- rfc5904
+  (B 0x72666336353139 7),  -- rfc6519
+  (B 0x72666336353732 7),  -- rfc6572
+  (B 0x72666336363737 7),  -- rfc6677
+  (B 0x72666336393131 7),  -- rfc6911
+  (B 0x72666337303535 7),  -- rfc7055
+  (B 0x72666337323638 7),  -- rfc7268
+  (B 0x76656e646f72732f6172756261 13),  -- vendors/aruba
+  (B 0x76656e646f72732f6d6963726f736f6674 17),  -- vendors/microsoft
+  (B 0x76656e646f72732f6d696b726f74696b 16),  -- vendors/mikrotik
+  (B 0x76656e646f72732f7769737072 13)  -- vendors/wispr
+]
+
+example : packageFiles.length = 33 ∧ helperPackages.length = 32 := by decide
+
 end RV.Facts.ExpectedC18
